@@ -820,6 +820,14 @@ DIRECTED: T.List[T.Tuple[T.List[str], T.Dict[str, T.Any]]] = [
     # the code generator is found through meson.override_find_program() (LocalProgram)
     (['built_tool', 'ct_header'], {'built_tool.override': True, 'built_tool.generator': True, 'built_tool.ct': True,
                                    'ct_header.variant': 'capture'}),
+    # generated headers nested in an umbrella dependency, consumed through partial_dependency(sources: true)
+    (['ct_chain', 'ct_header'], {'app.partial': True, 'ct_header.variant': 'plain', 'unity': False}),
+    # equally named outputs in two directories, both needed by one step (depends: / targets in the command)
+    (['same_name'], {'same_name.how': 'depends'}),
+    (['same_name', 'generator'], {'same_name.how': 'command', 'generator.depends': 'none'}),
+    # link_whole: of a static library into a shared library and into an executable
+    (['libs'], {'libs.kind.0': 'static_library', 'libs.kind.1': 'shared_library', 'libs.kind.2': 'static_library',
+                'libs.kind.3': 'static_library', 'libs.how': 'link_whole', 'libs.exe_whole': True}),
     (['subproject', 'genlist_chain'], {'genlist_chain.ct': True, 'genlist_chain.nested': True}),
     (['generator', 'ct_object', 'ct_header'], {'generator.depends': 'process', 'ct_object.how': 'archive',
                                                'ct_header.variant': 'index'}),
@@ -909,7 +917,7 @@ ASSUMPTIONS = [
     'behaviour of all executables are counted inconclusive, not violations',
 ]
 
-RULE = ('projects are composed from 14 mechanism blocks by gen_c05 (seeded); a case is one project taken through '
+RULE = ('projects are composed from 15 mechanism blocks by gen_c05 (seeded); a case is one project taken through '
         'traced build + race analysis + hermetic replays + adversarial schedules; distinct = distinct feature set '
         '(sorted feature names of the blocks/variants used)')
 
@@ -952,7 +960,7 @@ def main() -> int:
     if st_problems:
         chk.inconclusive.append('strace parser self-test failed: ' + '; '.join(st_problems)[:400])
     quick = chk.tier == 'quick'
-    nproj = 24 if quick else 300
+    nproj = 28 if quick else 300
     nsched = 6 if quick else 20
     budget = float(os.environ.get('VERIF_C05_BUDGET', '0')) or (150.0 if quick else 1080.0)
     deadline = chk.t0 + budget
